@@ -473,4 +473,7 @@ def check(ctx):
     rep.floor("members of the three Pauli-letter groups", n_members, 19)
     rep.floor("table exceptions met (ctrl, Identity x2, BasisState)", n_exc, 4)
     rep.floor("members proved to be functions of their group's letter", n_proved, 15)
+    from .c08_extra import swap
+
+    swap(ctx, rep)
     return rep
